@@ -143,7 +143,9 @@ def step (d : D) (line : String) : D × String :=
   | ["get", hn, h, py] =>
     match d.names.lookup h with
     | some (.inl i) =>
-      match hget d.u d.s i py with
+      let (s', g) := hget d.u d.s i py
+      let d := { d with s := s' }
+      match g with
       | .num v => (d, s!"num {v}")
       | .none_ => (d, "none")
       | .noattr => (d, "noattr")
